@@ -101,5 +101,63 @@ theorem keysDistinct_of_worldOk' {w : World} {ctr : Nat} (H : WorldOk' D w ctr) 
   have hmok : MapOk w.T (D p) pm ctr := H0.conts p _ hp
   exact hmok.distinct
 
+/-! ### `DetachedRoot` across an operation on a container `p` -/
+
+/-- a reference held after the operation by a container other than `p` was there before -/
+theorem SigFrame.holds_rev {w w' : World} {p : SlabID} (h : SigFrame w w' p) {q x : SlabID} (hq : q ≠ p)
+    (hh : Holds w' q x) : Holds w q x := by
+  obtain ⟨qc', hqc', hm⟩ := hh
+  have := h q hq
+  rw [hqc'] at this
+  cases hc : w.cont? q with
+  | none => rw [hc] at this; cases this
+  | some c =>
+    rw [hc] at this
+    simp only [Option.map_some, Option.some.injEq] at this
+    exact ⟨c, hc, by rw [← Cont.sig_pays this]; exact hm⟩
+
+/-- a container other than `p` stays live -/
+theorem SigFrame.live {w w' : World} {p : SlabID} (h : SigFrame w w' p) {z : SlabID} (hz : z ≠ p)
+    (hl : (w.cont? z).isSome) : (w'.cont? z).isSome := by
+  have := h z hz
+  cases hc : w.cont? z with
+  | none => rw [hc] at hl; cases hl
+  | some c =>
+    rw [hc] at this
+    cases hc' : w'.cont? z with
+    | none => rw [hc'] at this; cases this
+    | some c' => rfl
+
+/-- `x` stays a detached root across an operation that keeps the signature of every container but
+    `p`, keeps `p` live and leaves no reference to `x` in `p` -/
+theorem DetachedRoot.of_frame {w w' : World} {p x : SlabID} (hx : DetachedRoot w x) (hS : SigFrame w w' p)
+    (hlive : (w'.cont? p).isSome) (hp : ∀ c', w'.cont? p = some c' → Pay.ref x ∉ c'.pays) :
+    DetachedRoot w' x := by
+  refine ⟨?_, fun q hq => ?_⟩
+  · by_cases hxp : x = p
+    · rw [hxp]; exact hlive
+    · exact hS.live hxp hx.1
+  · by_cases hqp : q = p
+    · obtain ⟨c', hc', hm⟩ := hq
+      rw [hqp] at hc'
+      exact hp c' hc' hm
+    · exact hx.2 q (hS.holds_rev hqp hq)
+
+/-- the element stored for the value `v` (the plain value itself, or a reference to the child
+    container handed in) does not refer to `x`, unless `v` is `x` -/
+theorem WValOk.new_elem_not_ref {w : World} {p : SlabID} {lim : Nat} {v : WVal} {x : SlabID} {e : Elem}
+    (hv : WValOk w p lim v) (hvx : ∀ wr, v ≠ .child x wr)
+    (h1 : ∀ e0, v = .plain e0 → e = e0) (h2 : ∀ y wr, v = .child y wr → e.pay = .ref y) :
+    e.pay ≠ .ref x := by
+  cases v with
+  | plain e0 =>
+    obtain ⟨n, hn⟩ := hv.1.2
+    rw [h1 e0 rfl, hn]
+    intro h; cases h
+  | child y wr =>
+    rw [h2 y wr rfl]
+    intro h; cases h
+    exact hvx wr rfl
+
 end World
 end Atree
